@@ -118,7 +118,23 @@ class Cli:
                            stdin=subprocess.DEVNULL, stdout=subprocess.PIPE, stderr=subprocess.PIPE, timeout=300)
         out = p.stdout.decode("utf-8", "replace")
         return {"rc": p.returncode, "codes": ERR_LINE.findall(out), "out": out[-1500:],
-                "err": p.stderr.decode("utf-8", "replace")[-500:]}
+                "err": p.stderr.decode("utf-8", "replace")[-700:]}
+
+
+def panicked(r):
+    return r["rc"] == 101 or r["rc"] < 0 or "panicked at" in r["err"]
+
+
+def c17_known_panic(r, c17_known):
+    """a panic of the validator that is already recorded as a known finding of C17 (validate always
+    returns a verdict): returns its id.  Such a run has no verdict; C06's model describes runs that return."""
+    if not panicked(r):
+        return None
+    sig = {"uriparse": "uri-colon-segment", "validate/serde.rs:494": "blank-id"}
+    for needle, slug in sig.items():
+        if needle in r["err"] and slug in c17_known:
+            return slug
+    return None
 
 
 def detected(r):
@@ -201,6 +217,7 @@ def run(ctx):
     cli = Cli(ctx, binary)
     quick = ctx.quick()
     known_ids = {k["id"] for k in ctx.known}
+    c17_known = {k["id"] for k in common.known_findings("C17") if k["kind"] == "known"}
 
     objs_all = build_objects(ctx, *((8, 10, 45) if quick else (12, 36, 60)))
     # only objects the real validator accepts are in the scope of the property (anything else is C01's business)
@@ -258,7 +275,7 @@ def run(ctx):
     by_kind = collections.defaultdict(collections.Counter)
     by_class = collections.defaultdict(collections.Counter)
     info = collections.defaultdict(collections.Counter)
-    p_missed, known_detected = [], 0
+    p_missed, known_detected, panics = [], 0, []
     n_model = 0
     for i, ((oi, c), r) in enumerate(zip(cases, results)):
         o = objs[oi]
@@ -294,6 +311,16 @@ def run(ctx):
             info[c.kind]["detected_with_fixity"] += d_fix
             info[c.kind]["detected_without_fixity"] += d_nofix
         failed = msg is not None
+        c17 = [c17_known_panic(r[k], c17_known) for k in ("fix", "nofix", "path", "repo")]
+        if any(c17) and all(x or not panicked(r[k]) for x, k in zip(c17, ("fix", "nofix", "path", "repo"))):
+            # the corrupted inventory makes the validator PANIC in a way C17 records as a known finding:
+            # no verdict at all (exit 101), neither "valid" nor the exit status 2 the property asks for
+            slug = "C17/" + next(x for x in c17 if x)
+            ctx.known_hit(slug)
+            stats["validator_panics_known_to_C17"] += 1
+            if len(panics) < 5:
+                panics.append({"corruption": c.describe(), "object": o["obj"].id, "stderr": r["fix"]["err"][-300:]})
+            continue
         if failed and c.known and c.known in known_ids:
             ctx.known_hit(c.known)
             stats["known_hits"] += 1
@@ -362,6 +389,7 @@ def run(ctx):
     ctx.coverage["totals"] = dict(stats)
     ctx.coverage["known_class_cases_detected_anyway"] = known_detected
     ctx.coverage["ocflv_missed_what_rocfl_found"] = p_missed
+    ctx.coverage["validator_panics_recorded_by_C17"] = panics
     ctx.coverage["traces_validated_against_impl"] = n_model
     ctx.assumptions.append("digest injectivity (no collision among the contents that occur) is a hypothesis of the theorems; "
                            "the inventory parser is abstract in the model (parse_inv): the check instantiates it with vplib/ocflv.validate_inventory")
